@@ -28,7 +28,7 @@ void w_RowObj(PS_PARAMS, int m_i, int m_j)
 __CPROVER_requires(PS_WF && 0 <= m_i && m_i < nR && 0 <= m_j && m_j < nC)
 __CPROVER_requires(DEFINED(rst[m_i]) && DEFINED(cst[m_j]) && !(rst[m_i] == BASIC && cst[m_j] == BASIC))
 __CPROVER_requires(GHOST_COL && GHOST_ROW)
-__CPROVER_assigns(GP_ALL, W(s), W(cst), W(rst))
+__CPROVER_assigns(W(s), W(cst), W(rst))
 /* (a) count preserved, and the column that will be cut off is not basic */
 __CPROVER_ensures(B(rst[m_i]) + B(cst[m_j]) == B(__CPROVER_old(rst[m_i])) + B(__CPROVER_old(cst[m_j])))
 __CPROVER_ensures(cst[m_j] != BASIC)
@@ -45,7 +45,7 @@ __CPROVER_ensures(g_kc == m_j ==> (SAME(x[g_kc], v_x) && SAME(r[g_kc], v_r)))
 void h_RowObj(void)
 {
    PS_LOCALS; int m_i, m_j;
-   havoc_ghosts();
+   havoc_ghosts(); PS_GHOST_PTRS;
    w_RowObj(PS_ARGS, m_i, m_j);
    CANARY();
 }
@@ -69,7 +69,7 @@ void h_RowObj(void)
 void w_FreeConstraint(PS_PARAMS, int m_i, int m_old_i, int* row_idx, double* row_val, int row_n, double m_row_obj)
 __CPROVER_requires(PS_WF && ROW_SHIFT_REQ && SV_WF(row_idx, row_val, row_n) && g_n == row_n)
 __CPROVER_requires(GHOST_COL && GHOST_ROW)
-__CPROVER_assigns(GP_ALL, W(y), W(s), W(rst))
+__CPROVER_assigns(W(y), W(s), W(rst))
 __CPROVER_ensures(ROW_DELTA == 1)                                            /* (a) one row, one more BASIC */
 __CPROVER_ensures(ROW_SHIFT_UNDO)                                            /* (b) */
 __CPROVER_ensures(rst[m_i] == BASIC && SAME(y[m_i], m_row_obj))              /* (d) */
@@ -78,8 +78,8 @@ __CPROVER_ensures((g_kr != m_i && g_kr != m_old_i) ==> ROW_UNCHANGED)        /* 
 ;
 void h_FreeConstraint(void)
 {
-   PS_LOCALS; int m_i, m_old_i; int* row_idx; double* row_val; int row_n; double m_row_obj;
-   havoc_ghosts();
+   PS_LOCALS; int m_i, m_old_i; int row_idx[CAP]; double row_val[CAP]; int row_n; double m_row_obj;
+   havoc_ghosts(); PS_GHOST_PTRS;
    w_FreeConstraint(PS_ARGS, m_i, m_old_i, row_idx, row_val, row_n, m_row_obj);
    CANARY();
 }
@@ -90,7 +90,7 @@ void h_FreeConstraint(void)
 void w_EmptyConstraint(PS_PARAMS, int m_i, int m_old_i, double m_row_obj)
 __CPROVER_requires(PS_WF && ROW_SHIFT_REQ)
 __CPROVER_requires(GHOST_COL && GHOST_ROW)
-__CPROVER_assigns(GP_ALL, W(y), W(s), W(rst))
+__CPROVER_assigns(W(y), W(s), W(rst))
 __CPROVER_ensures(ROW_DELTA == 1)                                            /* (a) */
 __CPROVER_ensures(ROW_SHIFT_UNDO)                                            /* (b) */
 __CPROVER_ensures(rst[m_i] == BASIC && SAME(y[m_i], m_row_obj) && s[m_i] == 0.0)   /* (d) */
@@ -100,7 +100,7 @@ __CPROVER_ensures((g_kr != m_i && g_kr != m_old_i) ==> ROW_UNCHANGED)        /* 
 void h_EmptyConstraint(void)
 {
    PS_LOCALS; int m_i, m_old_i; double m_row_obj;
-   havoc_ghosts();
+   havoc_ghosts(); PS_GHOST_PTRS;
    w_EmptyConstraint(PS_ARGS, m_i, m_old_i, m_row_obj);
    CANARY();
 }
@@ -115,7 +115,7 @@ void h_EmptyConstraint(void)
 void w_FixBounds(PS_PARAMS, int m_j, int m_status)
 __CPROVER_requires(PS_WF && 0 <= m_j && m_j < nC && NONBASIC(m_status) && NONBASIC(cst[m_j]))
 __CPROVER_requires(GHOST_COL && GHOST_ROW)
-__CPROVER_assigns(GP_ALL, W(cst))
+__CPROVER_assigns(W(cst))
 __CPROVER_ensures(cst[m_j] == m_status)
 __CPROVER_ensures(B(cst[m_j]) == B(__CPROVER_old(cst[m_j])) && DEFINED(cst[m_j]))   /* (a) pure bound step: delta 0 */
 __CPROVER_ensures(g_kc != m_j ==> cst[g_kc] == v_cs)                                  /* (c) */
@@ -123,7 +123,7 @@ __CPROVER_ensures(g_kc != m_j ==> cst[g_kc] == v_cs)                            
 void h_FixBounds(void)
 {
    PS_LOCALS; int m_j, m_status;
-   havoc_ghosts();
+   havoc_ghosts(); PS_GHOST_PTRS;
    w_FixBounds(PS_ARGS, m_j, m_status);
    CANARY();
 }
@@ -134,7 +134,7 @@ void h_FixBounds(void)
 void w_TightenBounds(PS_PARAMS, int m_j, double m_origupper, double m_origlower)
 __CPROVER_requires(PS_WF && 0 <= m_j && m_j < nC && DEFINED(cst[m_j]))
 __CPROVER_requires(GHOST_COL && GHOST_ROW)
-__CPROVER_assigns(GP_ALL, W(cst))
+__CPROVER_assigns(W(cst))
 __CPROVER_ensures(DEFINED(cst[m_j]))
 __CPROVER_ensures((__CPROVER_old(cst[m_j]) == ZERO || __CPROVER_old(cst[m_j]) == BASIC) ==> cst[m_j] == __CPROVER_old(cst[m_j]))
 __CPROVER_ensures(__CPROVER_old(cst[m_j]) == ON_LOWER ==> (cst[m_j] == ON_LOWER || cst[m_j] == BASIC))
@@ -148,7 +148,7 @@ __CPROVER_ensures(B(cst[m_j]) == B(__CPROVER_old(cst[m_j])))                    
 void h_TightenBounds(void)
 {
    PS_LOCALS; int m_j; double m_origupper, m_origlower;
-   havoc_ghosts();
+   havoc_ghosts(); PS_GHOST_PTRS;
    w_TightenBounds(PS_ARGS, m_j, m_origupper, m_origlower);
    CANARY();
 }
@@ -164,7 +164,7 @@ void w_RowSingleton(PS_PARAMS, int m_i, int m_old_i, int m_j, double m_lhs, doub
 __CPROVER_requires(PS_WF && ROW_SHIFT_REQ && 0 <= m_j && m_j < nC && SV_WF(col_idx, col_val, col_n) && g_n == col_n)
 __CPROVER_requires(DEFINED(cst[m_j]))          /* UNDEFINED would fall through `default: break;` and leave the new row's status stale */
 __CPROVER_requires(GHOST_COL && GHOST_ROW)
-__CPROVER_assigns(GP_ALL, W(y), W(s), W(r), W(cst), W(rst))
+__CPROVER_assigns(W(y), W(s), W(r), W(cst), W(rst))
 __CPROVER_ensures(ROW_DELTA + B(cst[m_j]) - B(__CPROVER_old(cst[m_j])) == 1)                 /* (a) */
 __CPROVER_ensures(ROW_SHIFT_UNDO)                                                            /* (b) */
 __CPROVER_ensures(rst[m_i] == BASIC ==> SAME(y[m_i], m_row_obj))                             /* (d) */
@@ -179,8 +179,8 @@ __CPROVER_ensures(SAME(x[g_kc], v_x))
 void h_RowSingleton(void)
 {
    PS_LOCALS; int m_i, m_old_i, m_j, m_strictLo, m_strictUp, m_maxSense, col_n; double m_lhs, m_rhs, m_obj, m_newLo, m_newUp, m_oldLo, m_oldUp, m_row_obj;
-   int* col_idx; double* col_val;
-   havoc_ghosts();
+   int col_idx[CAP]; double col_val[CAP];
+   havoc_ghosts(); PS_GHOST_PTRS;
    w_RowSingleton(PS_ARGS, m_i, m_old_i, m_j, m_lhs, m_rhs, m_strictLo, m_strictUp, m_maxSense, m_obj, col_idx, col_val, col_n, m_newLo, m_newUp,
                   m_oldLo, m_oldUp, m_row_obj);
    CANARY();
@@ -196,7 +196,7 @@ void w_FixVariable(PS_PARAMS, int m_j, int m_old_j, double m_val, double m_obj, 
                    int* col_idx, double* col_val, int col_n)
 __CPROVER_requires(PS_WF && COL_SHIFT_REQ && SV_WF(col_idx, col_val, col_n) && g_n == col_n)
 __CPROVER_requires(GHOST_COL && GHOST_ROW && g_in == (SV_HAS(col_idx, col_n, g_kr) ? 1 : 0))
-__CPROVER_assigns(GP_ALL, W(x), W(s), W(r), W(cst))
+__CPROVER_assigns(W(x), W(s), W(r), W(cst))
 __CPROVER_ensures(NONBASIC(cst[m_j]))                                                        /* (a),(d) */
 __CPROVER_ensures(m_correctIdx ==> COL_DELTA == 0)
 __CPROVER_ensures(m_correctIdx ==> COL_SHIFT_UNDO)                                           /* (b) */
@@ -208,8 +208,8 @@ __CPROVER_ensures(!SV_HAS(col_idx, col_n, g_kr) ==> SAME(s[g_kr], v_s))
 ;
 void h_FixVariable(void)
 {
-   PS_LOCALS; int m_j, m_old_j, m_correctIdx, col_n; double m_val, m_obj, m_lower, m_upper; int* col_idx; double* col_val;
-   havoc_ghosts();
+   PS_LOCALS; int m_j, m_old_j, m_correctIdx, col_n; double m_val, m_obj, m_lower, m_upper; int col_idx[CAP]; double col_val[CAP];
+   havoc_ghosts(); PS_GHOST_PTRS; gp_i1 = col_idx;
    w_FixVariable(PS_ARGS, m_j, m_old_j, m_val, m_obj, m_lower, m_upper, m_correctIdx, col_idx, col_val, col_n);
    CANARY();
 }
@@ -228,13 +228,11 @@ void w_ForceConstraint(PS_PARAMS, int m_i, int m_old_i, double m_lRhs, int* row_
                        _Bool* fixed, int* cols_idx, double* cols_val, int* cols_n, int m_lhsFixed, int m_maxSense,
                        double* oldLo, double* oldUp, double m_lhs, double m_rhs, double m_rowobj)
 __CPROVER_requires(PS_WF && ROW_SHIFT_REQ && SV_WF(row_idx, row_val, row_n) && g_n == row_n && GHOST_DIMS)
-__CPROVER_requires(__CPROVER_is_fresh(objs, CAP * sizeof(double)) && __CPROVER_is_fresh(fixed, CAP * sizeof(_Bool))
-                   && __CPROVER_is_fresh(oldLo, CAP * sizeof(double)) && __CPROVER_is_fresh(oldUp, CAP * sizeof(double))
-                   && __CPROVER_is_fresh(cols_idx, CAP * CAP * sizeof(int)) && __CPROVER_is_fresh(cols_val, CAP * CAP * sizeof(double))
-                   && __CPROVER_is_fresh(cols_n, CAP * sizeof(int)) && ALLK(COLN_OK))
+__CPROVER_requires(ARR_OK(objs, CAP, double) && ARR_OK(fixed, CAP, _Bool) && ARR_OK(oldLo, CAP, double) && ARR_OK(oldUp, CAP, double)
+                   && ARR_OK(cols_idx, CAP * CAP, int) && ARR_OK(cols_val, CAP * CAP, double) && ARR_OK(cols_n, CAP, int) && ALLK(COLN_OK))
 __CPROVER_requires(SV_DISTINCT(row_idx, row_n))
 __CPROVER_requires(GHOST_COL && GHOST_ROW && g_in == (SV_HAS(row_idx, row_n, g_kc) ? 1 : 0))
-__CPROVER_assigns(GP_ALL, W(y), W(s), W(r), W(cst), W(rst))
+__CPROVER_assigns(g_out, W(y), W(s), W(r), W(cst), W(rst))
 /* (a) */
 __CPROVER_ensures(g_out == -1 || (0 <= g_out && g_out < nC))
 __CPROVER_ensures(g_out == -1 ==> (rst[m_i] == BASIC && B(cst[g_kc]) == B(v_cs)))
@@ -253,8 +251,9 @@ __CPROVER_ensures(SAME(x[g_kc], v_x))
 void h_ForceConstraint(void)
 {
    PS_LOCALS; int m_i, m_old_i, row_n, m_lhsFixed, m_maxSense; double m_lRhs, m_lhs, m_rhs, m_rowobj;
-   int* row_idx; double* row_val; double* objs; _Bool* fixed; int* cols_idx; double* cols_val; int* cols_n; double* oldLo; double* oldUp;
-   havoc_ghosts();
+   int row_idx[CAP]; double row_val[CAP]; double objs[CAP]; _Bool fixed[CAP]; int cols_idx[CAP * CAP]; double cols_val[CAP * CAP]; int cols_n[CAP];
+   double oldLo[CAP]; double oldUp[CAP];
+   havoc_ghosts(); PS_GHOST_PTRS; gp_i1 = row_idx;
    w_ForceConstraint(PS_ARGS, m_i, m_old_i, m_lRhs, row_idx, row_val, row_n, objs, fixed, cols_idx, cols_val, cols_n, m_lhsFixed, m_maxSense,
                      oldLo, oldUp, m_lhs, m_rhs, m_rowobj);
    CANARY();
@@ -284,16 +283,14 @@ void w_FreeZeroObjVariable(PS_PARAMS, int m_j, int m_old_j, int m_old_i, double 
                            int* lrhs_idx, double* lrhs_val, int* robj_idx, double* robj_val,
                            int* rows_idx, double* rows_val, int* rows_n, int m_loFree)
 __CPROVER_requires(PS_WF && COL_SHIFT_REQ && 0 <= m_old_i && m_old_i < nR && SV_WF(col_idx, col_val, col_n) && 1 <= col_n && 0 <= T0)
-__CPROVER_requires(__CPROVER_is_fresh(lrhs_idx, CAP * sizeof(int)) && __CPROVER_is_fresh(lrhs_val, CAP * sizeof(double))
-                   && __CPROVER_is_fresh(robj_idx, CAP * sizeof(int)) && __CPROVER_is_fresh(robj_val, CAP * sizeof(double))
-                   && __CPROVER_is_fresh(rows_idx, CAP * CAP * sizeof(int)) && __CPROVER_is_fresh(rows_val, CAP * CAP * sizeof(double))
-                   && __CPROVER_is_fresh(rows_n, CAP * sizeof(int)) && ALLK(ROWN_OK))
+__CPROVER_requires(ARR_OK(lrhs_idx, CAP, int) && ARR_OK(lrhs_val, CAP, double) && ARR_OK(robj_idx, CAP, int) && ARR_OK(robj_val, CAP, double)
+                   && ARR_OK(rows_idx, CAP * CAP, int) && ARR_OK(rows_val, CAP * CAP, double) && ARR_OK(rows_n, CAP, int) && ALLK(ROWN_OK))
 __CPROVER_requires(SV_SORTED(col_idx, col_n) && ALLK(COLIDX_OK) && ALLK(ROBJ_ZERO))
 __CPROVER_requires(g_n == col_n && g_n2 == T0 && GHOST_DIMS && g_a == m_j && g_b == m_old_j)
 __CPROVER_requires(GHOST_COL && GHOST_ROW && g_in == (SV_HAS(col_idx, col_n, g_kr) ? 1 : 0))
 __CPROVER_requires(0 <= g_k2 && g_k2 < col_n && SAME(v_s2, s[col_idx[g_k2]]) && SAME(v_y2, y[col_idx[g_k2]]) && v_rs2 == rst[col_idx[g_k2]]
                    && g_in2 == (SV_HAS(col_idx, col_n, T0 + g_k2) ? 1 : 0) && g_exp == EXP_DOM_STATUS(g_k2) && v_cs2 == cst[m_j])
-__CPROVER_assigns(GP_ALL, W(x), W(y), W(s), W(r), W(cst), W(rst))
+__CPROVER_assigns(g_out, gp_i2, gp_i3, gp_d1, W(x), W(y), W(s), W(r), W(cst), W(rst))
 /* (a),(d): n BASIC entries among the n rows and the column */
 __CPROVER_ensures(-1 <= g_out && g_out < col_n)
 __CPROVER_ensures(cst[m_j] == (g_out == -1 ? (m_loFree ? ON_UPPER : ON_LOWER) : BASIC) && r[m_j] == 0.0)
@@ -310,8 +307,9 @@ __CPROVER_ensures((g_kc != m_j && g_kc != m_old_j) ==> COL_UNCHANGED)
 void h_FreeZeroObjVariable(void)
 {
    PS_LOCALS; int m_j, m_old_j, m_old_i, col_n, m_loFree; double m_bnd;
-   int* col_idx; double* col_val; int* lrhs_idx; double* lrhs_val; int* robj_idx; double* robj_val; int* rows_idx; double* rows_val; int* rows_n;
-   havoc_ghosts();
+   int col_idx[CAP]; double col_val[CAP]; int lrhs_idx[CAP]; double lrhs_val[CAP]; int robj_idx[CAP]; double robj_val[CAP];
+   int rows_idx[CAP * CAP]; double rows_val[CAP * CAP]; int rows_n[CAP];
+   havoc_ghosts(); PS_GHOST_PTRS; gp_i1 = col_idx;
    w_FreeZeroObjVariable(PS_ARGS, m_j, m_old_j, m_old_i, m_bnd, col_idx, col_val, col_n, lrhs_idx, lrhs_val, robj_idx, robj_val,
                          rows_idx, rows_val, rows_n, m_loFree);
    CANARY();
